@@ -230,7 +230,7 @@ class MapBins(object):
             # bins are be transformed
             # Several iterations can happen, in principle.
             generators = _MdSeqMap(
-                lambda cell: copy.deepcopy(self._seq).run([cell]),
+                lambda cell: copy.deepcopy(self._seq).run(iter([cell])),
                 hist.bins
             )
             for new_bins in generators:
